@@ -70,6 +70,9 @@ def case_st(draw):
         c["spt"] = 18 if dd else 10
         c["ext"] = {("one", False): "ssd", ("one", True): "sdd", ("inter", False): "dsd", ("inter", True): "ddd"}[
             (kind.split("-")[0], dd)]
+        # 80 x 18 = 1440 sectors does not fit the 10-bit count: either the catalogue says 1023, or it uses the
+        # "large disc" bit (bit 2 of byte 0x106 = bit 10 of the count)
+        c["big_total"] = draw(st.booleans())
         if kind.endswith("trunc"):
             c["cut_sectors"] = draw(st.integers(1, c["spt"] * 3))
             c["cut_bytes"] = draw(st.sampled_from([0, 0, 1, 128, 255]))
@@ -168,10 +171,13 @@ class C04(CheckBase):
     def _sd(self, v, dfs, sb, case):
         tracks, spt = case["tracks"], case["spt"]
         inter = case["kind"].startswith("inter")
-        sides = [marker_surface("side0", tracks, spt)]
+        tot = tracks * spt if (case.get("big_total") and tracks * spt > 1023) else None
+        if tot:
+            v.classes.append("11-bit-sector-count")
+        sides = [marker_surface("side0", tracks, spt, total=tot)]
         blank1 = case["kind"] == "inter-blank1"
         if inter:
-            sides.append(blank_surface("side1", tracks, spt) if blank1 else marker_surface("side1", tracks, spt))
+            sides.append(blank_surface("side1", tracks, spt) if blank1 else marker_surface("side1", tracks, spt, total=tot))
             data = containers.interleaved(sides[0], sides[1], spt)
         else:
             data = sides[0]
